@@ -7,14 +7,17 @@ C19 driver. Case lines (after the id):
   file    <env> <path>                          observation  created:<sorted list of files> | err | PANIC
   rolling <env> <path>                          (same)
   roller  <env> <pattern> <base> <count> <rolls>  observation  files:<path>=<k>,… | err | PANIC
+  file-cfg / rolling-cfg <env> <path>           the same appenders created from a configuration FILE
+                                                (`load_config_file`, `Logger::new`, one record)
+  roller-cfg <env> <pattern> <base> <count> <rolls>   rolling appender + fixed-window roller from a
+                                                configuration file, one roll per record
 <env> = `~` or `,`-joined entries `<name>;<value>` (strings hex-encoded as everywhere).
-Paths of the three call-site kinds are relative to a fresh scratch directory the harness `cd`s into.
+Paths of the call-site kinds are relative to a fresh scratch directory the harness `cd`s into.
+The model of every call site is `location` (EnvExpand/Model.lean); the specification is ONE
+application of the single pass to the text the call site was given (`specLocation`).
 -/
 namespace Driver.C19
 open Log4rs.Proto Log4rs.EnvExpand Log4rs Driver
-
-/-- Flip to `true` after the `fix:` commit (single-pass expansion): the model becomes `expandFixed`. -/
-def useFixed : Bool := true
 
 /-- Non-ASCII sample characters of the generator with their `char::is_alphanumeric` value; the
 harness asserts at start-up that Rust classifies every one of them as listed here. -/
@@ -40,7 +43,20 @@ def decEnv (s : String) : Option Env :=
       | _, _ => none
     | _ => none) (decList ',' s)
 
-def modelExpand (env : Env) (p : Text) : Outcome Unit Text := appenderPath alnum env useFixed p
+def siteOf (kind : String) (slot : Nat) : Option CallSite :=
+  match kind with
+  | "file" => some .fileBuilder
+  | "file-cfg" => some .fileConfig
+  | "rolling" => some .rollingBuilder
+  | "rolling-cfg" => some .rollingConfig
+  | "roller" => some (.rollerBuilder slot)
+  | "roller-cfg" => some (.rollerConfig slot)
+  | _ => none
+
+/-- a second application of the expansion would change the result -/
+def reexpands (env : Env) (p : Text) : Bool :=
+  let once := specExpand alnum env p
+  specExpand alnum env once ≠ once
 
 def renderOut : Outcome Unit Text → String
   | .ok t => "ok:" ++ encStr t
@@ -85,10 +101,15 @@ def tagsOf (kind : String) (env : Env) (p : Text) (constructs : Bool) : List Str
   let t := if env.any (fun e => e.2.isEmpty) && !cs.setRefs.isEmpty then t ++ ["empty-value"] else t
   let t := if junctionFree alnum env p then t ++ ["junction-free"] else t ++ ["junction"]
   let t := if constructs then t ++ ["constructs-reference"] else t
+  let t := if reexpands env p then t ++ ["non-idempotent"] else t
   if p.all (· ≠ '$') then t ++ ["trivial"] else t
 
-def failSig (constructs : Bool) : String :=
-  if constructs then "C19/substitution-constructs-reference" else "C19/expansion-differs-from-single-pass"
+/-- class of the input of a failure: at a call site, an input on which a second application of
+the expansion changes the result; an input on which the historical replace-all differs (F7); other -/
+def failSig (callSite : Bool) (nonIdem constructs : Bool) : String :=
+  if callSite && nonIdem then "C19/call-site-not-expanded-exactly-once"
+  else if constructs then "C19/substitution-constructs-reference"
+  else "C19/expansion-differs-from-single-pass"
 
 /-- file-system friendly relative path: non-empty components, none of them `.` or `..`, no NUL -/
 def nicePath (p : Text) : Bool :=
@@ -121,40 +142,47 @@ def handle : Handler := fun cas obs =>
     match decEnv envS, decStr pathS with
     | some env, some p =>
       if !(known p && env.all (fun e => known e.1 && known e.2)) then badCase "character outside the classified samples" else
-      let m := modelExpand env p
       let s := specExpand alnum env p
-      let constructs := expand alnum env p ≠ .ok s
+      let constructs := expand_unfixed alnum env p ≠ .ok s
       let tags := tagsOf kind env p constructs
       if kind = "hook" then
         let want := "ok:" ++ encStr s
-        { model := renderOut m,
-          spec := if implObs = want then "ok" else "FAIL:expansion expected " ++ want ++ ";sig=" ++ failSig constructs,
+        { model := renderOut (expand alnum env p),
+          spec := if implObs = want then "ok" else "FAIL:expansion expected " ++ want ++ ";sig=" ++ failSig false false constructs,
           tags }
-      else if kind = "file" || kind = "rolling" then
+      else match siteOf kind 0 with
+      | some site =>
+        if kind = "roller" || kind = "roller-cfg" then badCase "arity" else
+        let m := location alnum env site p
+        let s := specLocation alnum env site p
         if !(nicePath s && (outText m).all nicePath) then badCase "path not file-system friendly" else
         let want := "created:" ++ encStr s
         { model := match m with
             | .ok t => "created:" ++ encStr t
             | _ => "PANIC",
-          spec := if implObs = want then "ok" else "FAIL:file location expected " ++ want ++ ";sig=" ++ failSig constructs,
+          spec := if implObs = want then "ok" else "FAIL:file location expected " ++ want ++ ";sig=" ++ failSig true (reexpands env p) constructs,
           tags }
-      else badCase "kind"
+      | none => badCase "kind"
     | _, _ => badCase "decode"
-  | ["roller", envS, patS, baseS, countS, rollsS], [implObs] =>
+  | [kind, envS, patS, baseS, countS, rollsS], [implObs] =>
+    if kind ≠ "roller" && kind ≠ "roller-cfg" then badCase "kind" else
     match decEnv envS, decStr patS, decNat baseS, decNat countS, decNat rollsS with
     | some env, some pat, some base, some count, some rolls =>
       if !(known pat && env.all (fun e => known e.1 && known e.2)) then badCase "character outside the classified samples" else
       let idxs := (List.range (count + 1)).map (· + base)
-      let mName := fun i => (outText (archivePath alnum env useFixed pat i)).getD []
-      let sName := fun i => specArchive alnum env pat i
+      let site := fun i => (siteOf kind i).getD (.rollerBuilder i)
+      let mName := fun i => (outText (location alnum env (site i) pat)).getD []
+      let sName := fun i => specLocation alnum env (site i) pat
       if !(idxs.all (fun i => nicePath (mName i) && nicePath (sName i))) then badCase "path not file-system friendly" else
-      let constructs := idxs.any (fun i => archivePath alnum env false pat i ≠ .ok (sName i))
-      let tags := tagsOf "roller" env (replaceAll ['{', '}'] (Log4rs.Str.decimal base) pat) constructs
+      let constructs := idxs.any (fun i => expand_unfixed alnum env (slotText pat i) ≠ .ok (sName i))
+      let nonIdem := idxs.any (fun i => reexpands env (slotText pat i))
+      let tags := tagsOf kind env (slotText pat base) constructs
+      let tags := if nonIdem && !tags.contains "non-idempotent" then tags ++ ["non-idempotent"] else tags
       match runRolls mName base count rolls 0 Roller.Disk.empty, runRolls sName base count rolls 0 Roller.Disk.empty with
       | some dm, some ds =>
         let want := renderDisk ds
         { model := renderDisk dm,
-          spec := if implObs = want then "ok" else "FAIL:archive locations expected " ++ want ++ ";sig=" ++ failSig constructs,
+          spec := if implObs = want then "ok" else "FAIL:archive locations expected " ++ want ++ ";sig=" ++ failSig true nonIdem constructs,
           tags }
       | _, _ => badCase "roll"
     | _, _, _, _, _ => badCase "decode"
